@@ -28,7 +28,8 @@ DPROBES = [["[C]", "[=C]", "[#C]", "[N+1]", "[=O]", "[Fe]", "[=Fe]"],
            ["[C]", "[NH4]", "[C]", "[OH3]", "[CH5]", "[C]"],          # hydrogen-rich atoms: in / out of the grammar depending on the table
            ["[C]", "[Branch1]", "[C]", "[O]", "[=N+1]", "[Ring1]", "[C]", "[C]"],
            ["[O]", "[=O]", "[=O]", ".", "[NH4+1]", "[Foo]"]]
-EPROBES = [["C", "=C", "#C"], ["N", "(", "C", ")", "(", "C", ")", "(", "C", ")", "C"], ["O", "=[N+]", "(", "O", ")", "C"],
+EPROBES = [["[CH5]", "C", "#C"],      # five hydrogens: strict accepts it only under a roomy table, strict=False under every table
+           ["C", "=C", "#C"], ["N", "(", "C", ")", "(", "C", ")", "(", "C", ")", "C"], ["O", "=[N+]", "(", "O", ")", "C"],
            ["c", "1", "c", "c", "c", "c", "c", "1"]]
 
 
@@ -306,7 +307,7 @@ def api_check(pid, tier, invariants, ops_note):
     d = 4 if quick else 5
     customs = CUSTOMS if not quick else CUSTOMS[:5]
     dpro = DPROBES[:4] if quick else DPROBES
-    epro = EPROBES[:1] if quick else EPROBES[:3]
+    epro = EPROBES[:1] if quick else EPROBES[:4]
     # design-level MC (VIEW hides nothing relevant: the history is replaced by its length)
     dm = d + 1 if quick else d
     r, _ = run_api_tlc("mc", dm, customs, dpro, epro, invariants=API_INVARIANTS, properties=["RejectAtomic"], timeout=6000)
@@ -396,10 +397,18 @@ def check_C12(tier):
             pass
         except Exception as e:
             rep.notes.setdefault("other_exception_types", []).append("%r -> %s" % (arg, type(e).__name__))
-        after = (sf.get_semantic_constraints(), set(sf.get_semantic_robust_alphabet()), de.call_decoder("[C][=C][#N][=O]"))
+        try:
+            after = (sf.get_semantic_constraints(), set(sf.get_semantic_robust_alphabet()), de.call_decoder("[C][=C][#N][=O]"))
+        except Exception as e:      # the getters themselves fail: the argument was installed and corrupts the library state
+            after = ("<%s>" % type(e).__name__,)
         rep.traces += 1
         if before != after:
-            rep.violation("rejected set_semantic_constraints(%r) changed the library state" % (arg,), {"arg": repr(arg)})
+            rep.violation("set_semantic_constraints(%r), which must be rejected, changed the library state (%s)" % (
+                arg, after[0] if len(after) == 1 else "table / alphabet / probe decode differ"), {"arg": repr(arg)})
+            try:
+                sf.set_semantic_constraints("default")
+            except Exception:
+                pass
     sf.set_semantic_constraints("default")
     for name in ("bogus", "", "Default"):
         try:
